@@ -237,6 +237,62 @@ def run(res):
                          {"cfg": a.as_dict(), "new": b.as_dict(), "changed": name}, "accepted" if out[0] == 0 else "refused (%d)" % out[0],
                          "accepted" if acc else "refused")
             break
+    # ---- a stale tmp. file left by a killed recorder in the period a new session starts in: the session's
+    #      write into that period is refused, and the leftover must never appear under a final name
+    for i in range(6 if res.tier == "quick" else 40):
+        cfg = wl.gen_cfg(rng, modes=["gapped", "cont", "cont+comp"])
+        chdir = os.path.join(work, "stale%d" % i, "ch")
+        F = wl.F_of(cfg, cfg.start)
+        sub = os.path.join(chdir, wl.expected_subdir(cfg, F))
+        os.makedirs(sub)
+        stale = os.path.join(sub, "tmp.rf@%d.%03d.h5" % (F // 1000, F % 1000))
+        with open(stale, "wb") as fh:
+            fh.write(b"\x89HDF\r\n\x1a\n" + b"leftover of a killed recorder" * 3)
+        hist = {"cfg": cfg.as_dict(), "stale_tmp": os.path.basename(stale)}
+        res.case(("stale-tmp", cfg.key()))
+        res.count("stale-tmp")
+        common.set_current(dict(hist, api="python"))
+        try:
+            w = wl.make_writer(cfg, chdir)
+        except Exception as e:  # noqa
+            res.violation("stale-tmp-blocks-construction", "a leftover tmp. file prevents opening the channel", hist, "writer", repr(e)[:200])
+            continue
+        refused = False
+        try:
+            w.rf_write(wl.enc(cfg, range(1, 4)), 0)
+        except Exception:  # noqa
+            refused = True
+        if i % 2 == 1:                # half of the sessions go on to a later period, half are closed right away
+            try:
+                far = 20 * cfg.per_file()
+                w.rf_write(wl.enc(cfg, range(10, 13)), far)
+            except Exception:  # noqa
+                pass                  # a writer that stops after the refusal is acceptable (I/O failure is sticky)
+        try:
+            w.close()
+        except Exception:  # noqa
+            pass
+        final = os.path.join(sub, os.path.basename(stale)[4:])
+        if os.path.exists(final):
+            ok = False
+            if not refused:
+                try:
+                    import h5py
+                    with h5py.File(final, "r") as h:
+                        ok = h["rf_data"].shape[0] >= 3
+                except Exception:  # noqa
+                    ok = False
+            if not ok:
+                res.violation("stale-tmp-published", "a leftover tmp. file of a killed recorder appears under a final name after a later session",
+                              dict(hist, write_refused=refused), "no rf@ file for that period (or a complete one written by the session)", os.path.basename(final))
+                continue
+        try:
+            rd = digital_rf.DigitalRFReader(os.path.dirname(chdir))
+            b = rd.get_bounds("ch")
+            if b[0] is not None:
+                rd.read(b[0], b[1], "ch")
+        except Exception as e:  # noqa
+            res.violation("reader-fails-after-stale-tmp", "the reader fails on a channel that held a leftover tmp. file", hist, "ok", repr(e)[:200])
     # ---- same-named channel under several top-level directories; a directory may hold several
     #      recording periods (sessions) that surround those of another directory
     for i in range(16 if res.tier == "quick" else 200):
